@@ -189,3 +189,75 @@ fn h_c_adapter() {
         }
     }
 }
+
+// ------------------------------------------------------------------------------------------
+// H-C-CLOSE: lifetime of the archive handle across a close that FAILS. The writer behind the
+// handle is built by a verification-only constructor appended to the overlay's copy of mla
+// (harness/plain_hooks): `mla_archive_new` itself (header serialisation, hash-table inserts) does
+// not finish under the model checker.
+// ------------------------------------------------------------------------------------------
+static mut CLOSE_WRITES: u32 = 0;
+extern "C" fn count_w_cb(_b: *const u8, l: u32, _c: *mut c_void, o: *mut u32) -> i32 {
+    unsafe {
+        CLOSE_WRITES += 1;
+        *o = l;
+    }
+    0
+}
+/// stub for `std::hash::RandomState::new`: fixed keys (see harness/lib.rs)
+fn fixed_random_state() -> std::hash::RandomState {
+    unsafe { core::mem::transmute::<(u64, u64), std::hash::RandomState>((0x0123_4567_89AB_CDEF, 0x0F1E_2D3C_4B5A_6978)) }
+}
+
+//@ props: C20
+//@ functions: mla_archive_close (handle slot cleared whatever finalize returns; archive released once); ArchiveWriter::finalize (state checks); MLAStatus::from(Error)
+//@ bounds: writer behind the handle with one open file of ANY id (finalize refuses before writing); second close on the same slot
+//@ stubs: std::hash::RandomState::new -> fixed keys; alloc::fmt::format; verification-only constructor mla::verif_writer_with_open_files in the overlay copy of mla (no layer, empty name tables)
+//@ outside: close that fails because a callback fails while the footer is written (footer serialisation is out of reach); handles created by mla_archive_new. Thorough tier only: releasing the writer (drop glue behind a dyn layer) costs ~9 min of symbolic execution
+//@ tier: thorough
+//@ replay: verif_replay_cbind::c_close_refused finalized=0
+//@ timeout: 3000
+#[kani::proof]
+#[kani::unwind(4)]
+#[kani::stub(alloc::fmt::format, nofmt)]
+#[kani::stub(std::hash::RandomState::new, fixed_random_state)]
+fn h_c_close_open_file() {
+    close_refused_body(false);
+}
+
+//@ props: C20
+//@ tier: thorough
+//@ functions: mla_archive_close; ArchiveWriter::finalize (state check on a finalized writer); MLAStatus::from(Error)
+//@ bounds: writer behind the handle already finalized; second close on the same slot
+//@ stubs: std::hash::RandomState::new -> fixed keys; alloc::fmt::format; verification-only constructor mla::verif_writer_with_open_files
+//@ outside: as h_c_close_open_file
+//@ replay: verif_replay_cbind::c_close_refused finalized=1
+//@ timeout: 3000
+#[kani::proof]
+#[kani::unwind(4)]
+#[kani::stub(alloc::fmt::format, nofmt)]
+#[kani::stub(std::hash::RandomState::new, fixed_random_state)]
+fn h_c_close_finalized() {
+    close_refused_body(true);
+}
+
+fn close_refused_body(finalized: bool) {
+    let id: u64 = kani::any();
+    let mut ids = Vec::with_capacity(1);
+    if !finalized {
+        ids.push(id);
+    }
+    unsafe {
+        CLOSE_WRITES = 0;
+    }
+    let out = CallbackOutput { write_callback: count_w_cb, flush_callback: f_cb, context: core::ptr::null_mut() };
+    let w: ArchiveWriter<CallbackOutput> = mla::verif_writer_with_open_files(out, ids, finalized);
+    let mut slot: MLAArchiveHandle = Box::into_raw(Box::new(w)).cast();
+    kani::cover!(true, "close reached");
+    let s = mla_archive_close(&raw mut slot);
+    assert!(st(s) != 0, "close reported success although finalize must refuse");
+    assert!(slot.is_null(), "the caller's handle is cleared whatever close returns (the archive behind it is released)");
+    assert!(unsafe { CLOSE_WRITES } == 0, "a refused close wrote to the output");
+    // the cleared handle cannot reach freed memory: a second close is refused on the slot value
+    assert!(st(mla_archive_close(&raw mut slot)) == BAD, "closing the cleared handle again is refused");
+}
